@@ -2,10 +2,16 @@ import EaselModel.Buffer.SimSet
 /-! Simulation of `esl_buffer_SetOffset`. -/
 namespace EaselModel.Buffer
 
-theorem setOffset_mem (b : Buf) (o : Nat) (h : memMode b.mode) :
+theorem setOffset_mem (b : Buf) (o : Nat) (h : memMode b.mode) (hle : o ≤ b.n) :
     setOffset b o = (({ st := .ok } : Out), { b with base := 0, pos := o }) := by
   unfold setOffset
-  rcases h with h | h | h <;> rw [h]
+  rcases h with h | h | h <;> rw [h] <;> simp only [] <;> rw [if_neg (by omega)]
+
+/-- since 4515997: beyond the end of a whole-input buffer `SetOffset` answers `eslEINVAL` and changes nothing -/
+theorem setOffset_mem_beyond (b : Buf) (o : Nat) (h : memMode b.mode) (hgt : b.n < o) :
+    setOffset b o = (({ st := .einval } : Out), b) := by
+  unfold setOffset
+  rcases h with h | h | h <;> rw [h] <;> simp only [] <;> rw [if_pos (by omega)]
 
 /-- the streaming branch of `SetOffset` -/
 def setOffsetStream (b : Buf) (offset : Nat) : Out × Buf :=
@@ -106,7 +112,7 @@ theorem ffwdLoop_succ (o : Nat) (fuel : Nat) (b : Buf) :
   rw [ffwdLoop]
 
 theorem ffwdLoop_spec (o : Nat) (fuel : Nat) : ∀ (b : Buf), WF b → b.rest.length + 1 ≤ fuel →
-    b.base + b.pos ≤ o → o ≤ b.src.length →
+    b.base + b.pos ≤ o → o ≤ max (b.base + b.pos) b.src.length →
     (ffwdLoop o fuel b).1 = .ok ∧ WF (ffwdLoop o fuel b).2 ∧ Keep b (ffwdLoop o fuel b).2 ∧
     (ffwdLoop o fuel b).2.base + (ffwdLoop o fuel b).2.pos ≤ o ∧
     o ≤ (ffwdLoop o fuel b).2.base + (ffwdLoop o fuel b).2.n := by
@@ -140,7 +146,7 @@ theorem ffwdLoop_spec (o : Nat) (fuel : Nat) : ∀ (b : Buf), WF b → b.rest.le
         have hprog := hr.prog (by rw [hav1]; omega)
         have hrest1 : ({ b with pos := b.n } : Buf).rest = b.rest := rfl
         rw [hrest1] at hprog
-        obtain ⟨i1, i2, i3, i4, i5⟩ := ih b2 hr.wf (by omega) (by omega) (by rw [hsrc2]; exact hhi)
+        obtain ⟨i1, i2, i3, i4, i5⟩ := ih b2 hr.wf (by omega) (by omega) (by rw [hsrc2]; omega)
         exact ⟨i1, i2, hkeep.trans i3, i4, i5⟩
       · subst heof
         -- end of the stream: then `o` is exactly the end of the input
@@ -178,7 +184,7 @@ theorem sim_setOffset (P : Nat) (o : Nat) : SimStep P (.setOffset o) := by
       rw [if_neg (by intro hh; cases hh), ho, hb, hc]
     · exact r.of_keepA' (s' := (s.step (.setOffset o)).2) (a' := { a with cur := o, lastp := none })
         (by rw [hb]; exact w) (by rw [hb]; exact pg) (by rw [hb]; exact k.toKeepA) (by rw [hb]; exact r.aok.keep k)
-        rfl rfl rfl (by rw [hb]; exact hc) hA hvle
+        rfl rfl rfl (by rw [hb]; exact hc) hA
         (by rw [step_lastp]; show (setOffset s.b o).1.p = none; exact setOffset_p _ _) rfl
   by_cases hm : memMode s.b.mode
   · -- whole input in memory
@@ -190,7 +196,7 @@ theorem sim_setOffset (P : Nat) (o : Nat) : SimStep P (.setOffset o) := by
       rw [hrest, hb0, List.append_nil, List.drop_zero, r.src] at this
       simp only [Buf.n]; omega
     have hnone := r.nfa hf
-    refine fin { s.b with base := 0, pos := o } (setOffset_mem s.b o hm) ?_ (Or.inr hrest) ?_ (by show 0 + o = o; omega)
+    refine fin { s.b with base := 0, pos := o } (setOffset_mem s.b o hm (by omega)) ?_ (Or.inr hrest) ?_ (by show 0 + o = o; omega)
     · refine ⟨?_, by show o ≤ s.b.n; omega, ?_, r.wf.hps, r.wf.heof, r.wf.hnofp⟩
       · show s.b.src.drop 0 = s.b.mem ++ s.b.rest
         rw [← hb0]; exact r.wf.hwin
@@ -270,7 +276,7 @@ theorem sim_setOffset (P : Nat) (o : Nat) : SimStep P (.setOffset o) := by
           · obtain ⟨a0, _, hb⟩ := absAnchor_some (by rw [r1]; exact hA' : s.b.absAnchor = some A)
             omega
         have hahead : s.b.base + s.b.pos ≤ o := by omega
-        obtain ⟨f1, f2, f3, f4, f5⟩ := ffwdLoop_spec o (s.b.rest.length + 2) s.b r.wf (by omega) hahead (by rw [r.src]; exact hvle)
+        obtain ⟨f1, f2, f3, f4, f5⟩ := ffwdLoop_spec o (s.b.rest.length + 2) s.b r.wf (by omega) hahead (by rw [r.src]; omega)
         generalize hff : ffwdLoop o (s.b.rest.length + 2) s.b = ff at *
         obtain ⟨stf, bf⟩ := ff
         simp only [] at f1 f2 f3 f4 f5
